@@ -92,6 +92,8 @@ class SBool:
         return E.decide(self.e)
 
     def __repr__(self):
+        if E.draining:
+            return 'SBool(..)'      # see SNum.__repr__
         return 'SBool(%s)' % z3.simplify(self.e)
 
 
@@ -295,6 +297,10 @@ class SNum:
         __mod__ = __rmod__ = __pow__ = __rpow__ = _unsupported
 
     def __repr__(self):
+        if E.draining:
+            # between two paths abandoned coroutines are finalised by the garbage collector in
+            # arbitrary order: the z3 term of a stale proxy may already be gone - do not touch it
+            return 'S(..)'
         return 'S(%s)' % z3.simplify(self.e)
     __str__ = __repr__
 
